@@ -5,6 +5,10 @@ from lib import new_cfg
 KEYS_A = [0, 1, 2, 3, 1, 1, None, 'x', True, 2.5, -1]
 STRS = ['x', 'y', '', 'é', 'z z', 'a,b', 'q"q', '=1+1', '-5', '+x', '@home']
 
+EXTRAS = [('', 0), ('a b', 1), ('é', 'ü'), ('q"k', []), ('n21', 1e21), ('big', 18446744073709551615), ('neg', -9223372036854775808), ('f', 0.1), ('e7', 2.5e-7),
+          ('deep', {'x': {'y': [[], {}]}}), ('s', 'line\nbreak'), ('t', 'tab\t"q"\\'), ('u', '\u2028'), ('z', None), ('del', '\x7f\x00\x1f'), ('b53', 9007199254740993),
+          ('k.dot', 'v'), ('#h', [None, False]), ('long', 'x' * 300), ('neg0', -0.5), ('tiny', 5e-324), ('huge', 1.7976931348623157e308)]
+
 def jdump(v):
     return json.dumps(v, ensure_ascii=False, separators=(',', ':')).encode('utf8')
 
@@ -17,6 +21,11 @@ def record(rnd):
         r['arr'] = [rnd.choice([{'a': rnd.randint(0, 2), 'k': rnd.choice(['x', 'y'])}, rnd.randint(0, 3), 'x', [1]])
                     for _ in range(rnd.randint(0, 3))]
     if rnd.random() < 0.3: r['flag'] = rnd.choice([True, False, 1])
+    # members no expression of the generators looks at, but which travel through every stage and printer: unusual names, every
+    # number shape, strings that need escaping, nested empties
+    if rnd.random() < 0.3:
+        for _ in range(rnd.randint(1, 2)):
+            k, v = rnd.choice(EXTRAS); r[k] = v
     return r
 
 def records(rnd, maxn=40):
